@@ -19,7 +19,7 @@ RULE = ("the entropy function handed to the library is a recording stream (event
 ASSUMPTIONS = ["the model encodes the anchored mechanism (top bitlen(n-2) bits of bitlen(n-2)//8+1 bytes, +1, reject >= n)",
                "uniformity is derived: equal split of accepted first chunks + fresh bytes after rejection (observed in the log)"]
 REQUIRED = {"quick": ["randrange.enum", "randrange.adversarial", "randrange.rejected_ge2", "generate", "sign.entropy", "sign_digest.entropy",
-                      "sign_number.entropy", "replay_same_stream", "key_then_nonce_disjoint", "seed.trytryagain", "seed.overshoot", "prng", "default_entropy.fork", "concurrent_calls", "reentrant_calls", "entropy_source_fails", "default_entropy.threads", "key_history", "shared_prng", "os_urandom_model"]}
+                      "sign_number.entropy", "replay_same_stream", "key_then_nonce_disjoint", "seed.trytryagain", "seed.overshoot", "prng", "default_entropy.fork", "concurrent_calls", "reentrant_calls", "entropy_source_fails", "default_entropy.threads", "key_history", "shared_prng", "os_urandom_model", "giant_order"]}
 EXHAUSTIVE = {"quick": ["randrange: all first chunks for every n in [2,80], n within +-2 of 2^j (j<=12): exact output distribution"],
               "thorough": ["randrange: all first chunks for every n in [2,512], sampled n to 2^12, n within +-2 of 2^j (j<=16)"]}
 
@@ -37,6 +37,7 @@ def shards(tier, seed):
         out.append(("keys_%s" % c.name, dict(kind="keys", cname=c.name, count=6 if q else 60)))
     out.append(("toykeys", dict(kind="toykeys", count=4 if q else 12)))
     out.append(("seed_helpers", dict(kind="seed", top=1 << (9 if q else 12))))
+    out.append(("giant_orders", dict(kind="giant", per=2 if q else 12)))
     out.append(("concurrent", dict(kind="concurrent", runs=120 if q else 1500)))
     out.append(("default_entropy", dict(kind="default_entropy", rounds=6 if q else 40)))
     out.append(("failing_source", dict(kind="failing_source")))
@@ -250,6 +251,17 @@ def run(ctx, name, kind, **kw):
                         sig2 = sk3.sign(msg, entropy=st2, sigencode=util.sigencode_strings)
                         ctx.case("replay_same_stream", key=key + "|sig")
                         ctx.check(sig2 == sig, "signature_not_replayable", "%s: same stream, different signature" % curve.name, dict(curve=curve.name))
+    elif kind == "giant":
+        # orders far beyond any curve (the function takes any order): requests of hundreds to thousands of bytes per candidate, around
+        # every size at which a source might be read in pieces (255/256/257 bytes, 511..513, 1023..1025, 2047..2049, 4095..4097 bytes)
+        for nbytes in (127, 128, 129, 254, 255, 256, 257, 258, 300, 510, 511, 512, 513, 514, 750, 1023, 1024, 1025, 2047, 2048, 2049, 4095, 4096, 4097):
+            for top in (0xff, 0x80, 0x01, 0x7f):
+                n = (top << (8 * (nbytes - 1))) | rng.getrandbits(8 * (nbytes - 1)) | 1
+                for j in range(kw["per"]):
+                    data = bytes(rng.getrandbits(8) for _ in range(nbytes + 1)) * 0 + rng.randbytes((nbytes + 1) * 6)
+                    if j == 0:
+                        data = b"\xff" * (nbytes + 1) + data        # first candidate out of range
+                    draw(ctx, n, data, "giant_order", "%d|%02x" % (nbytes, top))
     elif kind == "concurrent":
         # draws for DIFFERENT orders, each from its own stream, from 2-3 threads (a switch possible at every line of util.py), and
         # re-entered on one thread: each call must return what its own stream gives and consume exactly the modelled bytes
